@@ -124,8 +124,19 @@ func IsNumber(s string) bool { return reNumber.MatchString(s) }
 // IsSafeIdent: an identifier that is not a keyword.
 func IsSafeIdent(s string) bool { return IsIdent(s) && !Keywords[s] }
 
-// IsBareLit: can be written as an unquoted value (parsed through Selector).
+// IsBareLit: can be written as an unquoted value (parsed through Selector):
+// the first "."-separated segment must be an identifier; later segments can
+// be anything, because an index expression (x["any string"]) can spell them.
 func IsBareLit(s string) bool {
+	parts := strings.Split(s, ".")
+	if !IsSafeIdent(parts[0]) {
+		return false
+	}
+	return true
+}
+
+// isPlainBare: every segment can be written in the dotted form.
+func isPlainBare(s string) bool {
 	if !reBareLit.MatchString(s) {
 		return false
 	}
@@ -494,9 +505,11 @@ func (r *Renderer) RenderLit(l *Lit, mayNumber bool) string {
 // denotes its parts joined by ".", so `cfg.a.b`, `cfg["a"].b`, `cfg["a.b"]`
 // and cfg[`a`]["b"] all denote the string "cfg.a.b".
 func (r *Renderer) renderBare(s string) string {
-	if r.Plain || r.KeepSpell || r.R == nil || r.R.Intn(3) > 0 {
+	plain := isPlainBare(s)
+	if plain && (r.Plain || r.KeepSpell || r.R == nil || r.R.Intn(3) > 0) {
 		return s
 	}
+	chance := func(n int) bool { return r.R != nil && !r.Plain && r.R.Intn(n) == 0 }
 	parts := strings.Split(s, ".")
 	if len(parts) < 2 {
 		return s
@@ -505,19 +518,21 @@ func (r *Renderer) renderBare(s string) string {
 	sb.WriteString(parts[0])
 	for i := 1; i < len(parts); {
 		j := i + 1
-		if r.R.Intn(3) == 0 {
-			for j < len(parts) && r.R.Intn(2) == 0 {
+		if chance(3) {
+			for j < len(parts) && chance(2) {
 				j++ // merge several parts into one index string containing dots
 			}
 		}
 		p := strings.Join(parts[i:j], ".")
+		dotOK := j == i+1 && (IsSafeIdent(p) || IsDigits(p))
+		rawOK := utf8.ValidString(p) && !strings.ContainsAny(p, "`\r")
 		switch {
-		case j == i+1 && r.R.Intn(2) == 0:
+		case dotOK && !chance(2):
 			sb.WriteString("." + p)
-		case r.R.Intn(2) == 0:
-			sb.WriteString("[" + r.ows() + r.Quote(p) + r.ows() + "]")
-		default:
+		case rawOK && chance(2):
 			sb.WriteString("[" + r.ows() + "`" + p + "`" + r.ows() + "]")
+		default:
+			sb.WriteString("[" + r.ows() + r.Quote(p) + r.ows() + "]")
 		}
 		i = j
 	}
